@@ -74,10 +74,25 @@ def r1_copy_discipline(ctx, rule):
                 'them: later lookups return a corrupted completion, so the result depends on the cache history', facts, cfn)
     lq = OPT + 'lookup'
     lfn = ctx.fn(lq)
+    def cache_aliases(f):
+        # locals that denote (a part of) the cache: bound from an expression rooted at self.tmto_lookup
+        out = set()
+        for nm, lst in stores_in(f).items():
+            if any(v is not None and 'self.tmto_lookup' in U(v) for s_, v in lst):
+                out.add(nm)
+        return out
+
+    def in_cache(expr, aliases):
+        t = U(expr)
+        root = expr
+        while isinstance(root, (ast.Subscript, ast.Attribute)):
+            root = root.value
+        return 'self.tmto_lookup' in t or (isinstance(root, ast.Name) and root.id in aliases)
+    l_alias = cache_aliases(lfn)
     rets = [r for r in walk_local(lfn) if isinstance(r, ast.Return) and isinstance(r.value, ast.Tuple) and const(r.value.elts[0]) is True]
     for r in rets:
         v = r.value.elts[1]
-        if not (isinstance(v, ast.Call) and call_name(v) in ('self.custom_copy', 'copy.deepcopy') and 'self.tmto_lookup' in U(v.args[0])):
+        if not (isinstance(v, ast.Call) and call_name(v) in ('self.custom_copy', 'copy.deepcopy') and in_cache(v.args[0], l_alias)):
             ok = False
             ctx.bad(rule, lq, 'lookup returns ' + U(v)[:70], 'the cached value must be copied on lookup (the caller mutates what it '
                     'gets)', facts, r)
@@ -87,7 +102,9 @@ def r1_copy_discipline(ctx, rule):
     uq = OPT + 'update'
     ufn = ctx.fn(uq)
     pt = params(ufn)[4]
-    stores_ = [s for s in walk_stmts(ufn.body) if isinstance(s, ast.Assign) and 'self.tmto_lookup' in U(s.targets[0]) and pt in U(s.value)]
+    u_alias = cache_aliases(ufn)
+    stores_ = [s for s in walk_stmts(ufn.body) if isinstance(s, ast.Assign) and isinstance(s.targets[0], ast.Subscript)
+               and in_cache(s.targets[0], u_alias) and pt in U(s.value)]
     for s in stores_:
         v = s.value
         if not (isinstance(v, ast.Call) and call_name(v) in ('self.custom_copy', 'copy.deepcopy') and U(v.args[0]) == pt):
@@ -589,9 +606,78 @@ def r9_level_cursor_domain(ctx, rule):
     ctx.floor(rule, MCF, n, 2, 'level cursor loops')
 
 
+def r10_cache_key_agreement(ctx, rule):
+    """Optimizer.lookup reads the cache under exactly the key path Optimizer.update writes it under.
+
+    Key path = the sequence of index expressions from self.tmto_lookup down to the stored parse tree (nested subscripts, .get /
+    .setdefault hops, aliases, tuple keys flattened, a key bound to a local resolved).  The two must be the same sequence of the
+    same parameters: (ip, length, level) written but (ip, level, length) probed never hits - or hits the answer of another
+    question (seed C10-h)."""
+    paths = {}
+    for name in ('lookup', 'update'):
+        q = OPT + name
+        fn = ctx.fn(q)
+        stores = stores_in(fn)
+        alias = {}
+
+        def chain(e, depth=0):
+            """index expressions from the cache root down to e, or None if e is not rooted in the cache"""
+            if depth > 6:
+                return None
+            if isinstance(e, ast.Attribute) and U(e) == 'self.tmto_lookup':
+                return []
+            if isinstance(e, ast.Name) and e.id in alias:
+                return list(alias[e.id])
+            if isinstance(e, ast.Subscript):
+                base = chain(e.value, depth + 1)
+                if base is None:
+                    return None
+                k = expand(fn, e.slice, stores)
+                ks = [U(x) for x in k.elts] if isinstance(k, ast.Tuple) else [U(k)]
+                return base + ks
+            if isinstance(e, ast.Call) and isinstance(e.func, ast.Attribute) and e.func.attr in ('get', 'setdefault') and e.args:
+                base = chain(e.func.value, depth + 1)
+                if base is None:
+                    return None
+                k = expand(fn, e.args[0], stores)
+                ks = [U(x) for x in k.elts] if isinstance(k, ast.Tuple) else [U(k)]
+                return base + ks
+            return None
+        changed = True
+        while changed:
+            changed = False
+            for nm, lst in stores.items():
+                if nm in alias:
+                    continue
+                for s_, v in lst:
+                    if v is not None:
+                        c = chain(v)
+                        if c is not None and c:
+                            alias[nm] = c
+                            changed = True
+        best = []
+        for n in walk_local(fn):
+            if isinstance(n, ast.Subscript):
+                c = chain(n)
+                if c is not None and len(c) > len(best):
+                    best = c
+        paths[name] = best
+    facts = {'lookup_key_path': paths['lookup'], 'update_key_path': paths['update']}
+    if len(paths['lookup']) < 2 or len(paths['update']) < 2:
+        ctx.unk(rule, OPT + 'lookup', 'cache key paths not recognised: %s' % facts)
+        return
+    if paths['lookup'] == paths['update'] and sorted(paths['lookup']) == sorted(params(ctx.fn(OPT + 'lookup'))[1:4]):
+        ctx.ok(rule, OPT + 'lookup', 'lookup and update address the cache by the same key path %s' % paths['lookup'], facts)
+    else:
+        ctx.bad(rule, OPT + 'lookup', 'lookup probes %s, update stores under %s' % (paths['lookup'], paths['update']),
+                'a completion stored for (n-gram, length, level) must be found again under exactly that question and under no other: '
+                'a permuted or partial key makes lookups miss - or return the completion of a different length/level, so what a level '
+                'yields depends on what the cache already holds', facts, ctx.fn(OPT + 'lookup'))
+
+
 def rules(tier):
     return [('C10.R1', r1_copy_discipline), ('C10.R2', r2_memo_key), ('C10.R3', r3_sibling_constructions), ('C10.R4', r4_exact_last_transition),
-            ('C10.R5', r5_sibling_cursor_advance), ('C10.R6', r6_model_immutable), ('C10.R7', r7_prune_discipline), ('C10.R8', r8_guess_from_tree), ('C10.R9', r9_level_cursor_domain)]
+            ('C10.R5', r5_sibling_cursor_advance), ('C10.R6', r6_model_immutable), ('C10.R7', r7_prune_discipline), ('C10.R8', r8_guess_from_tree), ('C10.R9', r9_level_cursor_domain), ('C10.R10', r10_cache_key_agreement)]
 
 
 META = {
